@@ -28,6 +28,11 @@ structure Machine (σ α β : Type) where
 
 variable {σ α β : Type}
 
+/-- the default reactions: forward the error / the completion unchanged
+    (`destination.ErrorWithContext`, `destination.CompleteWithContext` passed as callbacks) -/
+def fwdE {σ β : Type} (s : σ) (c : Ctx) (e : Err) : σ × List (Notif β) := (s, [.error c e])
+def fwdC {σ β : Type} (s : σ) (c : Ctx) : σ × List (Notif β) := (s, [.complete c])
+
 def Machine.step (m : Machine σ α β) (s : σ) : Notif α → σ × List (Notif β)
   | .next c v => m.onNext s c v
   | .error c e => m.onError s c e
